@@ -1,5 +1,6 @@
 """Shared driver for the checks that execute core_exec scenarios and judge traces offline."""
 import hashlib
+import os
 import re
 from vf import corerun, framework as fw, trace as tr
 
@@ -28,6 +29,13 @@ def execute(cases, variant, timeout=120, env_extra=None):
     runs = corerun.run_many(texts, variant, timeout=timeout, env_extra=env_extra)
     for c, r in zip(cases, runs):
         c.run = r
+        if r.rc == 3 or r.rc == "timeout":
+            # watchdog / trace limit: the verdict is "inconclusive" whatever the trace says; keep only its tail (a runaway
+            # execution can have written hundreds of megabytes)
+            r.trace = "\n".join(r.trace[-400000:].splitlines()[1:])
+        if os.environ.get("VF_TRACE_STATS"):
+            with open(os.environ["VF_TRACE_STATS"], "a") as f:
+                f.write("%d %s %s\n" % (r.trace.count("\n"), c.profile, c.seed))
         c.recs, c.problems = tr.parse(r.trace)
     return cases
 
@@ -100,10 +108,20 @@ def run_checked(res, cases, variant, oracle, relevant, prefix, known_class=None,
             res.count("nontrivial_cases")
         if len(res.samples) < 3 and relevant(c) and o == "ok":
             res.samples.append(sample_of(c))
+        # one replay object per case, and at most a few witnesses per key and case: a broken tree can violate the same rule
+        # thousands of times inside one burst scenario (each copy of the scenario text used to be kept -> gigabytes)
+        rp = replay_of(c) if viol else None
+        per_key = {}
         for key, detail in viol:
             if known_class and c.profile in known_class:
                 key = known_class[c.profile]
-            res.violate(key, "%s [profile=%s seed=%s mode=%s variant=%s]" % (detail, c.profile, c.seed, c.mode, variant), replay_of(c))
+            per_key[key] = per_key.get(key, 0) + 1
+            if per_key[key] > 3:
+                continue
+            res.violate(key, "%s [profile=%s seed=%s mode=%s variant=%s]" % (detail, c.profile, c.seed, c.mode, variant), rp)
+        for key, n in per_key.items():
+            if n > 3:
+                res.count("further_violations_of_a_key_in_the_same_case", n - 3)
     return cases
 
 
